@@ -147,7 +147,16 @@ def run(ctx):
     if ctx.anchor("R16.3", "hash_wrapper::operator()", hw is not None):
         r = single_return(hw)
         ctx.check(fmt(r) == "hash(%s)" % hw.params[0]["name"], "R16.3", hw, "wrapper-delegates", "hash_wrapper returns %s" % fmt(r), hw)
-    hb = pat(lambda f: f.qual == "nitro::lang::hash" and "is_base_of<hashable" in f.id)
+    # the two generic overloads hash(const T&) are told apart by what is instantiated from them, not by the spelling of their constraint
+    # (an alias template for the enable_if return type leaves the overload set as it is): the one the arithmetic / string instantiations
+    # come from is the scalar overload, the other one is the overload for classes tagged hashable
+    generic = [f for f in hp if f.qual == "nitro::lang::hash" and len(f.params) == 1 and re.fullmatch(r"const \w+ &", f.params[0].get("type") or "")]
+    def _origin(f):
+        return f.flags.get("instantiation_of")
+    _sc_origins = {_origin(f) for f in prog.fns.values() if f.has_cfg and f.flags.get("instantiation") and f.qual == "nitro::lang::hash" and len(f.params) == 1
+                   and re.fullmatch(r"const (bool|char|int|unsigned int|long|unsigned long|float|double|long double|std::basic_string<char>) &", f.params[0].get("type") or "")}
+    _hb = [f for f in generic if f.id not in _sc_origins]
+    hb = _hb[0] if len(generic) == 2 and len(_hb) == 1 else pat(lambda f: f.qual == "nitro::lang::hash" and "is_base_of<hashable" in f.id)
     if ctx.anchor("R16.3", "hash(hashable)", hb is not None):
         r = single_return(hb)
         ctx.check(fmt(r) == "%s.hash()" % hb.params[0]["name"], "R16.3", hb, "hashable-delegates", "hash(hashable) returns %s" % fmt(r), hb)
@@ -159,7 +168,8 @@ def run(ctx):
         return bool(m) and SCALAR.match("<" + m.group(1).strip() + ">") is not None
     sc = [f for f in prog.fns.values() if f.has_cfg and f.flags.get("instantiation") and f.qual == "nitro::lang::hash" and len(f.params) == 1 and scalar_param(f)]
     ctx.need("R16.3", "scalar hash instantiations", len(sc), 3)
-    scp = pat(lambda f: f.qual == "nitro::lang::hash" and "std_hashable" in f.id)
+    _scp = [f for f in generic if f.id in _sc_origins]
+    scp = _scp[0] if len(generic) == 2 and len(_scp) == 1 else pat(lambda f: f.qual == "nitro::lang::hash" and "std_hashable" in f.id)
     ctx.anchor("R16.3", "hash(scalar) pattern", scp is not None)
     seen_t = set()
     for f in sc:
